@@ -313,7 +313,7 @@ def run_check(check, tier, seed, workers=None, budget=None, out=sys.stdout):
 
 
 def write_replay(check, v, ncases):
-    d = os.path.join(VERIF, 'replays', check.ID)
+    d = os.path.join(os.environ.get('MC_REPLAY_DIR') or os.path.join(VERIF, 'replays'), check.ID)
     os.makedirs(d, exist_ok=True)
     name = hashlib.sha1(v['signature'].encode()).hexdigest()[:12] + '.json'
     path = os.path.join(d, name)
@@ -336,7 +336,8 @@ def write_replay(check, v, ncases):
 
 
 def write_evidence(check, tier, seed, agg, wall, exhaustive, nunits, done_units, new_violations, note=None):
-    os.makedirs(os.path.join(VERIF, 'evidence'), exist_ok=True)
+    evdir = os.environ.get('MC_EVIDENCE_DIR') or os.path.join(VERIF, 'evidence')
+    os.makedirs(evdir, exist_ok=True)
     samples = agg.samples[:]
     if samples:
         k = seed % len(samples)
@@ -374,7 +375,7 @@ def write_evidence(check, tier, seed, agg, wall, exhaustive, nunits, done_units,
         'violations': int(new_violations),
         'violating_cases_total': int(agg.nviol),
     }
-    path = os.path.join(VERIF, 'evidence', '%s.json' % check.ID)
+    path = os.path.join(evdir, '%s.json' % check.ID)
     tmp = path + '.tmp'
     with open(tmp, 'w') as f:
         json.dump(ev, f, indent=1)
